@@ -137,6 +137,8 @@ class ArmWalker:
                 return '%s[%s]' % (inner, idx if idx is not None else 'i')
             if nm in ('DictKeys', 'SortedDictKeys'):
                 return 'KEYS(%s)' % self.cls_of(a[0], depth + 1)
+            if nm in ('first', 'second'):
+                return self.cls_of(a[0], depth + 1) if a else 'UNKNOWN'
             if nm in ('DictGetItem', 'DictGetItemAs'):
                 return '%s[key]' % self.cls_of(a[0], depth + 1)
             if nm in ('TupleGetSize', 'ListGetSize', 'DictGetSize'):
@@ -330,7 +332,13 @@ class ArmWalker:
                     x = x.call_base()
                 self.events.append(('reverse', self.cls_of(x), c))
             elif nm in ('DictKeys', 'SortedDictKeys'):
-                self.events.append(('keys', nm, self.cls_of(a[0]), c))
+                self.events.append(('keys', 'DictKeys', self.cls_of(a[0]), c))
+                if nm == 'SortedDictKeys':
+                    self.events.append(('sort', 'KEYS(%s)' % self.cls_of(a[0]),
+                                        [g[0] for g in self.guards], c))
+            elif nm == 'reverse' and len(a) == 2 and any(
+                    m.kind == 'MemberExpr' and m.name in ('m_agenda', 'agenda') for m in c.walk()):
+                self.events.append(('reverse-pushed', c))
             elif nm == 'operator()' and c.kind == 'CXXOperatorCallExpr':
                 callee = c.kids[1]
                 cp = member_path(callee) or ''
